@@ -490,6 +490,24 @@ class Runner:
         self._rejected = False
         twins = self.value_twins() if self.prog.get("focus") == "C18" else None
         getattr(self, "do_" + kind)(i, st, before)
+        focus = self.prog.get("focus")
+        if focus == "C05" and len(self.findings) > n0 and kind != "measure" and getattr(self, "_measured_before", False):
+            # C05: after a measurement the other subsystems remain fully usable in every continuation
+            for f in list(self.findings[n0:]):
+                if f.prop not in ("C05", "HARNESS"):
+                    self.findings.append(Finding("C05", f"continuation after a measurement: {f.msg}", i))
+        if focus == "C05" and kind == "measure" and len(self.findings) > n0:
+            for f in list(self.findings[n0:]):
+                if f.prop in ("C13", "C07"):
+                    self.findings.append(Finding("C05", f"after the measurement the survivors are not left in a usable state: {f.msg}", i))
+        if kind == "measure":
+            self._measured_before = True
+        if focus == "C13" and kind == "struct" and len(self.findings) > n0:
+            # C13: a structural (physics-neutral) call after which the stored tensors no longer match what the
+            # indices say: the bookkeeping is not truthful even if every list position is consistent
+            for f in list(self.findings[n0:]):
+                if f.prop == "C02":
+                    self.findings.append(Finding("C13", f"after {st.get('what')}: the indices no longer describe the stored tensor ({f.msg})", i))
         if twins and len(self.findings) > n0:
             # C18 programs: a call fails while two different subsystems hold equal values
             for f in list(self.findings[n0:]):
@@ -690,6 +708,20 @@ class Runner:
                 return self.call_op(st, targets)
             if what == "outside_container":
                 return self.call_op(st, targets)
+            if what == "destroyed_operand":
+                # a composite-level request whose operands are a live subsystem followed by a destroyed one
+                live, dead = targets[0], targets[1]
+                c = st["call"]
+                if c == "combine":
+                    return h.combine(live, dead)
+                if c == "kraus":
+                    d_ = dims_of(live) * 2
+                    return h.apply_kraus([jnp.eye(d_)], live, dead)
+                if c == "trace_out":
+                    return h.trace_out(live, dead)
+                if c == "cx":
+                    return h.apply_operation(Operation(CO.CXPolarization), live, dead)
+                raise ValueError(c)
             if what == "foreign_member":
                 t = targets[0]
                 ops = [jnp.array(mat_of(m)) for m in st["ops"]]
@@ -726,7 +758,8 @@ class Runner:
                 return h.resize_fock(st["dim"], targets[0])
             raise ValueError(what)
 
-        self.expect_reject(i, st, before, thunk, "C17", f"invalid request '{what}'")
+        rprop = "C10" if (self.prog.get("focus") == "C10" and what == "shrink_below_support") else "C17"
+        self.expect_reject(i, st, before, thunk, rprop, f"invalid request '{what}'")
 
     # Kraus ---------------------------------------------------------------------------------
     def do_kraus(self, i, st, before):
@@ -774,7 +807,8 @@ class Runner:
             pass
         self.lean.call(op="kraus", targets=st["targets"], ops=[carr(K) for K in ops2])
         # nearly pure result: what is judged is whether the automatic contraction kept the state (C08)
-        self.compare_states("C08" if st.get("weak") else "C06", i, what="joint state after a weak channel (nearly pure)" if st.get("weak") else "joint state")
+        weak_prop = "C02" if self.prog.get("focus") == "C02" else "C08"
+        self.compare_states(weak_prop if st.get("weak") else "C06", i, what="joint state after a weak channel (nearly pure)" if st.get("weak") else "joint state")
         # result must be a density matrix unless provably pure
         self.check_invariants(i)
         self.frame_check(i, before, self.touched_blocks(before, st["targets"]))
